@@ -37,8 +37,16 @@ MANIFEST_ENTRY = {
         "encoding is proved under C04. Trusted: Lean kernel, harness, driver, mp4walk, shims."),
     "technique": "Lean 4 proof (least-index characterisation, loop invariants, induction over the timeline loop) + model/implementation correspondence",
 }
-PROP_FILES = ["DashLive/Props/C02.lean"]
-LEAN_TARGETS = ["DashLive.Props.C02"]
+PROP_FILES = ["DashLive/Props/C02.lean", "DashLive/Props/GenTie.lean"]
+LEAN_TARGETS = ["DashLive.Props.C02", "DashLive.Props.GenTie"]
+
+
+def _gen_arith():
+    """Gen/Arith.lean is translated from /repo's source text; Props/GenTie.lean ties it to the model"""
+    import gen_arith
+    gen_arith.main()
+
+GENERATORS = [_gen_arith]
 TRUSTED = [
     "harness/mp4walk.py (independent box walker), harness/mp4synth.py (synthetic media), /verif/shims",
     "timescale_to_timedelta (float) is a parameter of the model; its value comes from the implementation",
